@@ -38,6 +38,10 @@ type vc02Machine struct {
 
 func (s *vc02Machine) has(v uint64) bool { return vHas(s.m, v) }
 
+type vc02FailWriter struct{}
+
+func (vc02FailWriter) Write(p []byte) (int, error) { return 0, fmt.Errorf("verif: injected op-log write failure") }
+
 func (s *vc02Machine) modelAdd(v uint64) bool {
 	i := sort.Search(len(s.m), func(i int) bool { return s.m[i] >= v })
 	if i < len(s.m) && s.m[i] == v {
@@ -338,6 +342,43 @@ func (s *vc02Machine) actions(t *rapid.T) map[string]func(*rapid.T) {
 			s.touch(vals...)
 			if len(want) < len(vals) {
 				s.classes["batchPartlyUnchanged"] = true
+			}
+		},
+		// (lead, after seeded change C02-a) a batch whose op-log write fails must report 0 changed bits and leave the
+		// bitmap as it was: AddN/RemoveN undo what they applied ("reset data since we're returning an error"), Add/Remove
+		// log before they apply. The model is not touched; the invariant after the step compares every read path.
+		"FailedLogWrite": func(t *rapid.T) {
+			vals := s.genBatch(t, "flw", 6)
+			op := rapid.SampledFrom([]string{"AddN", "RemoveN", "Add", "Remove"}).Draw(t, "flw.op")
+			s.log("%s%v with failing op writer", op, vals)
+			for i, b := range s.bms {
+				old := b.OpWriter
+				b.OpWriter = vc02FailWriter{}
+				buf := append([]uint64(nil), vals...)
+				var n int
+				var ch bool
+				var err error
+				switch op {
+				case "AddN":
+					n, err = b.AddN(buf...)
+				case "RemoveN":
+					n, err = b.RemoveN(buf...)
+				case "Add":
+					ch, err = b.Add(buf...)
+				case "Remove":
+					ch, err = b.Remove(buf...)
+				}
+				b.OpWriter = old
+				if err == nil {
+					t.Fatalf("%s bitmap: %s(%v) with a failing op writer returned no error\n%s", s.kinds[i], op, vals, s.describe())
+				}
+				if n != 0 || ch {
+					t.Fatalf("%s bitmap: %s(%v) failed (%v) but reports a change (%d,%v)\n%s", s.kinds[i], op, vals, err, n, ch, s.describe())
+				}
+			}
+			s.classes["failedLogWrite"] = true
+			for _, v := range vals {
+				s.touched = append(s.touched, v)
 			}
 		},
 		"DirectAdd": func(t *rapid.T) {
